@@ -79,6 +79,20 @@ def make_portid(service: bool, root: str, allow: bool, via: str):
             want = 0 <= p <= 8191
             if not allow:
                 want = want and ((7168 <= p <= 8191) if standard else (6144 <= p <= 7167))
+        if via == "dep":
+            # the definition with the port-ID is reached only as a dependency of the one being read
+            body = "uint8 a\n@sealed\n---\nuint8 b\n@sealed\n" if service else "uint8 a\n@sealed\n"
+            d = textio.MemDefinition(root + ".Dep", (1, 0), body, p, plain_file_name=True)
+            if service:
+                return None  # a service type cannot be a field type
+            t = textio.MemDefinition(root + ".T", (1, 0), root + ".Dep.1.0 d\n" + root + ".Dep.1.0[<=2] dd\n@sealed\n")
+            try:
+                with textio.native_grammar():
+                    t.read([d], [], lambda *_: None, allow)
+                got = True
+            except pydsdl.InvalidDefinitionError:
+                got = False
+            return _iff(got, want, "port-ID of a dependency outside the permitted range")
         if via == "ctor":
             try:
                 if service:
@@ -557,8 +571,10 @@ def conditions(tier: str, seed: int) -> typing.List[Cond]:
     for service in (False, True):
         for root in ("uavcan", "cyphal", "acme"):
             for allow in (True, False):
-                for via in ("ctor", "text"):
+                for via in ("ctor", "text", "dep"):
                     if via == "ctor" and not allow:
+                        continue
+                    if via == "dep" and service:
                         continue
                     out.append(Cond(PROP, "c05.portid", make_portid, {"service": service, "root": root, "allow": allow, "via": via},
                                     {"p": int}, assumptions=["port-ID p: unbounded integer"], fmtstub=True,
